@@ -37,11 +37,15 @@ func contractTags(fc *FuncContract) []string {
 
 func newExec(p *Prog, name string) *Exec {
 	e := &Exec{P: p, S: newScript(), name: name, notes: map[string]bool{}, unsup: map[string]bool{}, arrSort: map[string]string{},
-		callSeen: map[string]int{}, closures: map[string]closureInfo{}, usedLemmas: map[string]bool{}, measures: map[int]string{}}
+		callSeen: map[string]int{}, closures: map[string]closureInfo{}, usedLemmas: map[string]bool{}, measures: map[int]string{}, prov: map[string]string{}}
 	e.S.DeclareFun("typeof", []string{"Int"}, "Int")
 	e.S.Assert(sEq(sx("typeof", "0"), "0"))
 	e.S.Declare("A0", "Int")
 	e.S.Assert(sx("<=", "0", "A0"))
+	for _, srt := range []string{"Int", "String", "Bool"} {
+		e.S.Declare("SEQ_"+srt, "(Array Int (Seq "+srt+"))")
+		e.S.Assert(sEq(sx("seq.len", sx("select", "SEQ_"+srt, "0")), "0"))
+	}
 	// pre-register every field array so that havocAll covers them
 	fs := p.fieldSorts()
 	for _, n := range sortedKeys(fs) {
@@ -58,7 +62,8 @@ func newExec(p *Prog, name string) *Exec {
 }
 
 func (e *Exec) initState() *State {
-	st := &State{reach: "true", heap: map[string]string{}, ghost: map[string]Val{}, top: "A0", larr: map[*ssa.Alloc]*LocalArr{}, held: map[string]bool{}}
+	e.S.Declare("HV0", "Int")
+	st := &State{hv: "HV0", reach: "true", heap: map[string]string{}, ghost: map[string]Val{}, top: "A0", larr: map[*ssa.Alloc]*LocalArr{}, held: map[string]bool{}}
 	for _, g := range sortedKeys(e.P.CS.Ghosts) {
 		gd := e.P.CS.Ghosts[g]
 		k, t := e.specType("", gd.Type)
@@ -96,6 +101,10 @@ func verifyFunc(p *Prog, fn *ssa.Function, fc *FuncContract, cover bool) (e *Exe
 	}
 	fr.entry = st.clone()
 	env := e.funcEnv(fr, st)
+	if fc.Recv != nil && fc.Recv.Name == "self" && len(fr.params) > 0 && fr.params[0].K == KRef {
+		// verification against an interface method contract: invoked through a non-nil interface
+		e.S.Assert(sNot(sEq(fr.params[0].t(), "0")))
+	}
 	for _, c := range fc.Requires {
 		e.S.Assert(e.evalBool(env, c.Expr))
 	}
@@ -207,6 +216,82 @@ func generate(p *Prog, prop string, cover bool) *RunResult {
 			rr.Unsupported = append(rr.Unsupported, e.name+": "+n)
 		}
 	}
+	// refinement: every module implementation of an interface with a (non-assumed)
+	// contract is verified against the interface's method contracts
+	for _, ik := range sortedKeys(p.CS.Ifaces) {
+		ic := p.CS.Ifaces[ik]
+		if ic.Assumed {
+			continue
+		}
+		sp := p.SPkgs[ic.PkgPath]
+		if sp == nil {
+			continue
+		}
+		obj := sp.Pkg.Scope().Lookup(ic.Name)
+		if obj == nil {
+			rr.Unbound = append(rr.Unbound, ik)
+			continue
+		}
+		it, ok := obj.Type().Underlying().(*types.Interface)
+		if !ok {
+			continue
+		}
+		for _, impl := range p.implementers(it) {
+			if len(ic.Impls) > 0 {
+				nm := types.TypeString(impl, func(*types.Package) string { return "" })
+				if !contains(ic.Impls, nm) && !contains(ic.Impls, strings.TrimPrefix(nm, "*")) {
+					continue
+				}
+			}
+			for _, mn := range sortedKeys(ic.Methods) {
+				mc := ic.Methods[mn]
+				if prop != "" && !contains(contractTags(mc), prop) {
+					continue
+				}
+				sel := p.SSA.MethodSets.MethodSet(impl).Lookup(sp.Pkg, mn)
+				if sel == nil {
+					sel = p.SSA.MethodSets.MethodSet(impl).Lookup(nil, mn)
+				}
+				if sel == nil {
+					continue
+				}
+				fn := p.SSA.MethodValue(sel)
+				if fn == nil || fn.Synthetic != "" || !inModule(fn) {
+					continue
+				}
+				dc := *mc
+				dc.Trusted = false
+				dc.Recv = &Param{Name: "self", Type: types.TypeString(impl, func(*types.Package) string { return "" })}
+				dc.PkgPath = fn.Pkg.Pkg.Path()
+				var e *Exec
+				if own := p.contractFor(fn); own != nil {
+					e = verifyRefinement(p, fn, own, &dc)
+				} else {
+					e = verifyFunc(p, fn, &dc, cover)
+				}
+				e.name = dispName(fn) + "~" + ic.Name
+				for _, o := range e.obls {
+					o.Name = e.name + o.Name[strings.Index(o.Name, "#"):]
+					o.Func = e.name
+				}
+				rr.Execs = append(rr.Execs, e)
+				rr.Functions = append(rr.Functions, e.name)
+				all := contractTags(&dc)
+				for _, o := range e.obls {
+					if len(o.Props) == 0 {
+						o.Props = all
+					}
+					rr.Obls = append(rr.Obls, o)
+				}
+				for n := range e.notes {
+					rr.Notes = append(rr.Notes, n)
+				}
+				for n := range e.unsup {
+					rr.Unsupported = append(rr.Unsupported, e.name+": "+n)
+				}
+			}
+		}
+	}
 	for _, n := range sortedKeys(p.CS.Lemmas) {
 		lm := p.CS.Lemmas[n]
 		if lm.Trusted {
@@ -244,4 +329,75 @@ func relevant(p *Prog, fc *FuncContract, prop string) bool {
 
 func fmtObl(o *Obligation) string {
 	return fmt.Sprintf("%-70s %-8s %-8s %6.2fs %s", o.Name, strings.Join(o.Props, ","), o.Res.Status, o.Res.TimeS, o.Res.Backend)
+}
+
+// verifyRefinement: the implementation's own contract implies the interface
+// method's contract (requires weakened, ensures strengthened).
+func verifyRefinement(p *Prog, fn *ssa.Function, own, ifc *FuncContract) *Exec {
+	e := newExec(p, dispName(fn))
+	e.fn, e.fc = fn, ifc
+	st := e.initState()
+	fr := &Frame{fn: fn, vals: map[ssa.Value]Val{}, addrs: map[ssa.Value]*Addr{}, top: true}
+	for _, prm := range fn.Params {
+		v := e.freshVal("p_"+prm.Name(), prm.Type(), kindOf(prm.Type()))
+		e.typeFacts(v, prm.Type(), st)
+		fr.vals[prm] = v
+		fr.params = append(fr.params, v)
+	}
+	fr.entry = st.clone()
+	// interface preconditions hold; a method is never invoked through a nil interface
+	if len(fr.params) > 0 && fr.params[0].K == KRef {
+		e.S.Assert(sNot(sEq(fr.params[0].t(), "0")))
+	}
+	ienv := e.funcEnv(fr, st)
+	for _, c := range ifc.Requires {
+		e.S.Assert(e.evalBool(ienv, c.Expr))
+	}
+	// the implementation's preconditions must follow
+	oenv := &Env{e: e, pkg: ienv.pkg, vars: map[string]Val{}, st: st, ctx: e.name + " (own contract)"}
+	e.bindParams(oenv, own, fn, fr.params)
+	for i, c := range own.Requires {
+		e.oblige(st, fmt.Sprintf("refines:pre:%d", i+1), "pre", contractTags(ifc), e.evalBool(oenv, c.Expr), c.Text, fn.Pos())
+	}
+	// effect of the implementation according to its own contract
+	pre := st.clone()
+	oenv.st = pre
+	if !own.Pure {
+		for _, m := range own.Modifies {
+			e.havocClause(oenv, st, own, m)
+		}
+	}
+	e.bumpTop(st)
+	var results []Val
+	res := fn.Signature.Results()
+	for i := 0; i < res.Len(); i++ {
+		v := e.freshVal(fmt.Sprintf("r_%d", i), res.At(i).Type(), kindOf(res.At(i).Type()))
+		e.typeFacts(v, res.At(i).Type(), st)
+		results = append(results, v)
+	}
+	qenv := &Env{e: e, pkg: ienv.pkg, vars: map[string]Val{}, st: st, old: oenv, ctx: e.name + " (own contract)"}
+	for n, v := range oenv.vars {
+		qenv.vars[n] = v
+	}
+	e.bindResults(qenv, own, results)
+	e.evalWitnesses(qenv, own)
+	for _, c := range own.Ensures {
+		e.S.Assert(e.evalBool(qenv, c.Expr))
+	}
+	// interface postconditions
+	penv := e.funcEnv(fr, st)
+	penv.old = &Env{e: e, pkg: ienv.pkg, vars: ienv.vars, st: pre, ctx: e.name}
+	e.bindResults(penv, ifc, results)
+	e.evalWitnesses(penv, ifc)
+	for _, lm := range ifc.Lemmas {
+		e.instLemma(penv, lm, st)
+	}
+	for i, c := range ifc.Ensures {
+		lbl := c.Label
+		if lbl == "" {
+			lbl = fmt.Sprintf("%d", i+1)
+		}
+		e.obligeNoAssume(st, "refines:post:"+lbl, "post", c.Tags, e.evalBool(penv, c.Expr), c.Text, fn.Pos())
+	}
+	return e
 }
